@@ -422,20 +422,16 @@ impl<'a> From<Piece<'a>> for Chunk {
                     }
 
                     let timezone = match formatter.args.get(1) {
-                        Some(arg) => {
-                            if let Some(arg) = arg.first() {
-                                match *arg {
-                                    Piece::Text("utc") => Timezone::Utc,
-                                    Piece::Text("local") => Timezone::Local,
-                                    Piece::Text(z) => {
-                                        return Chunk::Error(format!("invalid timezone `{}`", z));
-                                    }
-                                    _ => return Chunk::Error("invalid timezone".to_owned()),
-                                }
-                            } else {
-                                return Chunk::Error("invalid timezone".to_owned());
-                            }
-                        }
+                        // the whole argument must be the text `utc` or `local`; a syntax error
+                        // inside it surfaces as itself
+                        Some(arg) => match plain_text(arg, "invalid timezone") {
+                            Ok(zone) => match zone.as_str() {
+                                "utc" => Timezone::Utc,
+                                "local" => Timezone::Local,
+                                z => return Chunk::Error(format!("invalid timezone `{}`", z)),
+                            },
+                            Err(e) => return Chunk::Error(e),
+                        },
                         None => Timezone::Local,
                     };
 
